@@ -67,4 +67,15 @@ func VH_C17_BanTable_sym() {
 	}
 	b2, _ := bf.IsBanned("10.1.2.4")
 	vAssert("other_address_unaffected", !b2)
+	// banning the same address again replaces the earlier ban (temporary -> permanent, or a fresh expiry)
+	later := vTimeAny("later")
+	if vBool("second_permanent") {
+		err = bf.Add("10.1.2.3", nil)
+		_, u2 := bf.IsBanned("10.1.2.3")
+		vAssert("reban_permanent_takes_effect", err == nil && u2 == nil)
+	} else {
+		err = bf.Add("10.1.2.3", &later)
+		_, u2 := bf.IsBanned("10.1.2.3")
+		vAssert("reban_new_expiry_takes_effect", err == nil && u2 != nil && u2.Equal(later))
+	}
 }
